@@ -197,19 +197,21 @@ Definition ok_serve (tables : list (list bytes)) (sc : script) (svc : list nat)
 Definition TIMEOUT : Z := 2.
 Definition loop_script (head : bytes) (silent : bool) : script :=
   {| it_data := head; it_err := 0 |} :: (if silent then [{| it_data := []; it_err := TIMEOUT |}] else []).
-Definition loop_wf (head : bytes) (fill : nat) : bool :=
-  Nat.eqb fill 0 || Nat.leb (max_depth_all prod_tables) (length head).
-Definition loop_run (head : bytes) (fill : nat) (silent : bool) : decision * nat * nat * bool :=
+(* byte counts of the loopback stream are binary integers: a 1 MiB count as a
+   unary nat would be a million constructors deep *)
+Definition loop_wf (head : bytes) (fill : Z) : bool :=
+  Z.eqb fill 0 || Nat.leb (max_depth_all prod_tables) (length head).
+Definition loop_run (head : bytes) (fill : Z) (silent : bool) : decision * nat * Z * bool :=
   let d := fst (mux_serve true prod_tables (loop_script head silent)) in
   match d with
-  | DSvc _ => (d, 1%nat, (length head + fill)%nat, true)
-  | _ => (d, O, O, true)
+  | DSvc _ => (d, 1%nat, zlen head + fill, true)
+  | _ => (d, O, 0, true)
   end.
-Definition ok_loop (head : bytes) (fill : nat) (silent : bool)
-                   (d : decision) (handed nrecv : nat) (eq : bool) : bool :=
+Definition ok_loop (head : bytes) (fill : Z) (silent : bool)
+                   (d : decision) (handed : nat) (nrecv : Z) (eq : bool) : bool :=
   decision_eqb d (classify prod_tables head)
   && match d with
-     | DSvc _ => Nat.eqb handed 1 && eq && Nat.eqb nrecv (length head + fill)
+     | DSvc _ => Nat.eqb handed 1 && eq && Z.eqb nrecv (zlen head + fill)
      | DNone => Nat.eqb handed 0
      | _ => false
      end.
